@@ -26,7 +26,7 @@ Init0 ==
   [ sent |-> Empty, arrived |-> Empty, got |-> Empty, returned |-> Empty,
     closeOut |-> {}, closeIn |-> Empty, lclosing |-> {}, lclosed |-> {},
     eofSeen |-> {}, errSeen |-> Empty, observed |-> {}, asked |-> {},
-    pending |-> Empty, lateErr |-> {}, drainFail |-> {}, cbSet |-> {}, wantEnd |-> {}, endCount |-> Empty, cbFailed |-> {},
+    downSeen |-> {}, pending |-> Empty, lateErr |-> {}, drainFail |-> {}, cbSet |-> {}, wantEnd |-> {}, endCount |-> Empty, cbFailed |-> {},
     cutSide |-> {}, exited |-> {}, joined |-> {}, ids |-> {}, table |-> Empty,
     ctx |-> Empty, bad |-> "" ]
 
@@ -68,6 +68,7 @@ Step0(st, e) ==
         ELSE IF e.op = "7" THEN [st EXCEPT !.closeIn = Put(@, E, IF Get(st.closeIn, E, "") = "" THEN "last" ELSE Get(st.closeIn, E, ""))]
         ELSE st
     [] e.ev = "cut" -> [st EXCEPT !.cutSide = @ \cup {S}]
+    [] e.ev = "down" -> [st EXCEPT !.downSeen = @ \cup {S}]
     [] e.ev = "deq" ->
         IF e.tok = -1 THEN st
         ELSE LET s1 == [st EXCEPT !.got = Put(@, E, Append(SeqOf(st.got, E), e.tok))] IN
@@ -191,7 +192,8 @@ Step0(st, e) ==
             missedErr == {X \in eps : Get(st.closeIn, X, "") = "error" /\ X \in st.asked /\ Nat0(st.errSeen, X) = 0}
             missedEnd == {X \in st.wantEnd : (Get(st.closeIn, X, "") # "" \/ DownFor(st, X[1])) /\ Nat0(st.endCount, X) # 1}
             missedCb  == {X \in st.cbSet \ st.cbFailed : Get(st.closeIn, X, "") # "" /\ SeqOf(st.got, X) # SeqOf(st.arrived, X)}
-        IN IF missedErr \ st.lateErr # {} THEN Flag(st, "C07.remote-error-swallowed")
+        IN IF "w" \in st.cutSide /\ "w" \notin st.downSeen THEN Flag(st, "C11.worker-did-not-wind-down-after-its-connection-ended")
+           ELSE IF missedErr \ st.lateErr # {} THEN Flag(st, "C07.remote-error-swallowed")
            ELSE IF missedErr # {} THEN Flag(st, "C07.remote-error-swallowed-after-last-message")
            ELSE IF missedEnd # {} THEN Flag(st, "C10.endmarker-missing")
            ELSE IF missedCb # {} THEN Flag(st, "C10.callback-missed-items")
